@@ -224,12 +224,55 @@ def check_handover(ctx, rule="R1-state-hand-over"):
             ctx.holds(rule, c + "[state out]", "final filter state stored back", where)
 
 
+def _state_slots_paired(ctx, rule, key, fn, where):
+    """every sample loop that carries a variable read from a slot of the state array must be followed by a store of that variable to the same
+    slot (whatever the arrangement of the sections: one per sweep, fused pairs, an unpaired tail): the stream continues from the stored state."""
+    ps = [a.arg for a in fn.args.args]
+    if len(ps) < 4: return
+    P = ps[3]
+    blocks = []
+
+    def walk(body):
+        blocks.append(body)
+        for st in body:
+            for fld in ("body", "orelse", "finalbody"):
+                b = getattr(st, fld, None)
+                if isinstance(b, list) and b and isinstance(b[0], ast.stmt): walk(b)
+    walk(fn.body)
+    stores = [n for n in ast.walk(fn) if isinstance(n, ast.Assign) and any(isinstance(t, ast.Subscript) and isinstance(t.value, ast.Name) and t.value.id == P for t in n.targets)]
+    nloops = 0; bad = []
+    for body in blocks:
+        for i, lp in enumerate(body):
+            if not isinstance(lp, ast.For): continue
+            assigned = {t.id for n in ast.walk(lp) if isinstance(n, ast.Assign) for t in n.targets if isinstance(t, ast.Name)}
+            assigned |= {n.target.id for n in ast.walk(lp) if isinstance(n, ast.AugAssign) and isinstance(n.target, ast.Name)}
+            last = {}
+            for st in body[:i]:
+                if isinstance(st, ast.Assign) and len(st.targets) == 1 and isinstance(st.targets[0], ast.Name):
+                    v = st.value
+                    if isinstance(v, ast.Subscript) and isinstance(v.value, ast.Name) and v.value.id == P: last[st.targets[0].id] = v
+                    else: last.pop(st.targets[0].id, None)
+            for nm, rd in last.items():
+                if nm not in assigned: continue
+                nloops += 1
+                end = getattr(lp, "end_lineno", lp.lineno)
+                ok = any(st.lineno > end and isinstance(st.value, ast.Name) and st.value.id == nm and
+                         any(isinstance(t, ast.Subscript) and ast.dump(t.slice) == ast.dump(rd.slice) for t in st.targets) for st in stores)
+                if not ok: bad.append((nm, rd, lp))
+    for nm, rd, lp in bad:
+        ctx.violated(rule, key + f"[state slot {ast.unparse(rd)}]", f"the sample loop at line {lp.lineno} advances '{nm}', read from {ast.unparse(rd)}, but the final value is never stored back to "
+                     "that slot: the next request restarts this section from a stale state (the concatenation of two requests differs from one request)", where)
+    if nloops and not bad:
+        ctx.holds(rule, key + "[state slots paired]", f"{nloops} carried section state(s): each is read from a slot of '{P}' before its sample loop and stored to the same slot after it", where)
+
+
 def check_cascade(ctx, rule="R2-cascade-is-DF2T"):
     """loop-body identity of the first-order sections: y = a0*u + z ; z' = a1*u - b1*y, state read before / written after the
     sample loop, output written back to the working array.  All roles are found by data flow, not by variable names."""
     repo = ctx.repo
     key = f"{NOISE}::_numba_lfilter_cascade"; fn = repo.get(key); where = repo.where(key, fn); ctx.analysed(key)
     setup()
+    _state_slots_paired(ctx, rule, key, fn, where)
     I = Interp(repo)
     for nm in ("a_coeffs", "b_coeffs", "zi", "samples", "work"): ARRAY_KIND[nm] = "real"
     st = St()
